@@ -474,7 +474,10 @@ class ConditionLike:
                 try:
                     spec_val = valida.datapath.DataPath.from_spec(spec_val)
                 except MalformedDataPathSpec:
-                    # Check values for DataPath specs (building a new mapping of arguments):
+                    pass
+                if isinstance(spec_val, dict):
+                    # a literal mapping (un-escaped, if its keys were escaped): check values
+                    # for DataPath specs (building a new mapping of arguments):
                     new_items = {}
                     for k, v in spec_val.items():
                         try:
@@ -770,14 +773,11 @@ class Condition(ConditionLike):
         # data-path arguments are written as path specs, and literal mappings that
         # `from_spec` would read as (escaped) path specs are escaped; like `from_spec`,
         # this looks at the argument itself and at the items of a list/mapping argument:
-        json_like_val = self._arg_to_json_like(spec_val)
-        if json_like_val is spec_val:
-            if isinstance(spec_val, dict):
-                spec_val = {k: self._arg_to_json_like(v) for k, v in spec_val.items()}
-            elif isinstance(spec_val, list):
-                spec_val = [self._arg_to_json_like(i) for i in spec_val]
-        else:
-            spec_val = json_like_val
+        if isinstance(spec_val, dict):
+            spec_val = {k: self._arg_to_json_like(v) for k, v in spec_val.items()}
+        elif isinstance(spec_val, list):
+            spec_val = [self._arg_to_json_like(i) for i in spec_val]
+        spec_val = self._arg_to_json_like(spec_val)
 
         out = {key: spec_val}
         if "shared_data" in kwargs:
